@@ -162,8 +162,31 @@ impl Monitor for C11L {
                 out.stats.inc("c11l.decisions");
             }
         }
-        if let StepKind::Client(_) = ctx.kind {
-            self.prev_choice = ctx.world.last_selected_idx.and_then(|i| ctx.world.conns.get(i)).map(|c| c.conn_id);
+        if let StepKind::Client(dg) = ctx.kind {
+            // "the previous uplink" is the one the previous datagram was really handed to (its
+            // unique copy: the scheduler's pick or the override's), by the monitor's own observation
+            let placed: Vec<u64> = ctx
+                .pre
+                .iter()
+                .filter(|p| {
+                    crate::lsim::find_view(ctx.mid, p.conn_id).is_some_and(|m| m.queued != p.queued || ctx.wire[..ctx.wire_mid].iter().any(|w| Some(w.fd) == p.fd))
+                })
+                .map(|p| p.conn_id)
+                .collect();
+            let named = ctx.world.last_selected_idx.and_then(|i| ctx.world.conns.get(i)).map(|c| c.conn_id);
+            if dg.as_ref().is_some_and(|b| !b.is_empty()) && ctx.has_connected_pre {
+                self.prev_choice = match placed.len() {
+                    0 => self.prev_choice,
+                    1 => Some(placed[0]),
+                    // duplicate probes went out as well: the unique copy is the one the shell names, if it is among them
+                    _ => named.filter(|n| placed.contains(n)),
+                };
+                if placed.len() == 1 && named != Some(placed[0]) {
+                    out.probe("c11l.shell_anchor_differs_from_carrier");
+                }
+            } else {
+                self.prev_choice = named;
+            }
         }
         if ctx.reload_snap.is_some_and(|_| matches!(ctx.kind, StepKind::Housekeeping)) && ctx.world.last_selected_idx.is_none() {
             out.probe("c11l.anchor_reset_by_reload");
